@@ -1,6 +1,7 @@
 package checks
 
 import (
+	"errors"
 	"encoding/json"
 	"fmt"
 	"os"
@@ -49,6 +50,9 @@ func init() {
 		NeedsRace: true,
 		Families: []fw.Family{
 			{Name: "parallel", N: constN(60, 1500), Gen: c16GenParallel, Eval: c16EvalParallel},
+			{Name: "rules-builder", N: constN(400, 10000), Gen: func(r *xrand.Rand, idx int, tier string) *fw.Case {
+				return &fw.Case{Ints: map[string]int{"procs": []int{2, 4, 16}[r.Intn(3)]}, Docs: []run.Doc{{}}}
+			}, Eval: c16EvalRulesBuilder},
 			{Name: "shared", N: constN(60, 1500), Gen: c16GenShared, Eval: c16EvalShared},
 			{Name: "history", N: constN(7*1000, 7*30000), Gen: c16GenHistory, Eval: c16EvalHistory},
 		},
@@ -268,6 +272,7 @@ type omap struct {
 	has      func(k string) bool
 	length   func() int
 	each     func() string
+	eachErr  func() string // Each with a callback that returns an error at the first entry: the first key visited
 	eachRev  func() string
 	find     func(k string) (string, bool)
 	mapAll   func(suffix string)
@@ -277,6 +282,8 @@ type omap struct {
 	data     func() string
 	valueKey string // JSON key that carries the value in MarshalJSON output
 }
+
+var errStopEach = errors.New("stop")
 
 type testIID struct{ s string }
 
@@ -312,6 +319,11 @@ func newOmap(kind string) *omap {
 				var p []string
 				_ = m.Each(func(k string, v *catalog.Server) error { p = append(p, kv(k, v.Annotation)); return nil })
 				return join(p)
+			},
+			eachErr: func() string {
+				first := ""
+				_ = m.Each(func(k string, v *catalog.Server) error { first = k; return errStopEach })
+				return first
 			},
 			eachRev: func() string {
 				var p []string
@@ -352,6 +364,11 @@ func newOmap(kind string) *omap {
 				var p []string
 				_ = m.Each(func(k catalog.TagName, v *catalog.Tag) error { p = append(p, kv(string(k), v.Title)); return nil })
 				return join(p)
+			},
+			eachErr: func() string {
+				first := ""
+				_ = m.Each(func(k catalog.TagName, v *catalog.Tag) error { first = string(k); return errStopEach })
+				return first
 			},
 			eachRev: func() string {
 				var p []string
@@ -395,6 +412,11 @@ func newOmap(kind string) *omap {
 				_ = m.Each(func(k string, v *catalog.UserType) error { p = append(p, kv(k, v.Annotation)); return nil })
 				return join(p)
 			},
+			eachErr: func() string {
+				first := ""
+				_ = m.Each(func(k string, v *catalog.UserType) error { first = k; return errStopEach })
+				return first
+			},
 			eachRev: func() string {
 				var p []string
 				_ = m.EachReverse(func(k string, v *catalog.UserType) error { p = append(p, kv(k, v.Annotation)); return nil })
@@ -436,6 +458,11 @@ func newOmap(kind string) *omap {
 				var p []string
 				_ = m.Each(func(k string, v *catalog.UserRule) error { p = append(p, kv(k, v.Annotation)); return nil })
 				return join(p)
+			},
+			eachErr: func() string {
+				first := ""
+				_ = m.Each(func(k string, v *catalog.UserRule) error { first = k; return errStopEach })
+				return first
 			},
 			eachRev: func() string {
 				var p []string
@@ -481,6 +508,11 @@ func newOmap(kind string) *omap {
 				_ = m.Each(func(k string, v *directive.Directive) error { p = append(p, kv(k, v.Annotation)); return nil })
 				return join(p)
 			},
+			eachErr: func() string {
+				first := ""
+				_ = m.Each(func(k string, v *directive.Directive) error { first = k; return errStopEach })
+				return first
+			},
 			eachRev: func() string {
 				var p []string
 				_ = m.EachReverse(func(k string, v *directive.Directive) error { p = append(p, kv(k, v.Annotation)); return nil })
@@ -521,6 +553,11 @@ func newOmap(kind string) *omap {
 				var p []string
 				_ = m.Each(func(k catalog.InteractionID, v catalog.Interaction) error { p = append(p, kv(k.String(), val(v))); return nil })
 				return join(p)
+			},
+			eachErr: func() string {
+				first := ""
+				_ = m.Each(func(k catalog.InteractionID, v catalog.Interaction) error { first = k.String(); return errStopEach })
+				return first
 			},
 			eachRev: func() string {
 				var p []string
@@ -634,6 +671,11 @@ func modelStep(state string, in hop) (out string, next string) {
 		return fmt.Sprint(len(keys)), state
 	case "each", "marshal":
 		return state, state
+	case "eacherr":
+		if len(keys) == 0 {
+			return "", state
+		}
+		return keys[0], state
 	case "eachrev":
 		rk, rv := make([]string, len(keys)), make([]string, len(keys))
 		for j := range keys {
@@ -685,6 +727,8 @@ func (m *omap) apply(h hop) string {
 		return fmt.Sprint(m.length())
 	case "each":
 		return m.each()
+	case "eacherr":
+		return m.eachErr()
 	case "eachrev":
 		return m.eachRev()
 	case "marshal":
@@ -732,7 +776,7 @@ func c16GenHistory(r *xrand.Rand, idx int, tier string) *fw.Case {
 					v = k
 				}
 			} else {
-				op = []string{"set", "set", "settop", "update", "update", "map", "get", "has", "len", "each", "eachrev", "find", "marshal", "each"}[r.Intn(14)]
+				op = []string{"set", "set", "settop", "update", "update", "map", "get", "has", "len", "each", "eachrev", "find", "marshal", "each", "eacherr"}[r.Intn(15)]
 				if op == "update" || op == "map" {
 					v = fmt.Sprintf("+u%d", uid)
 				}
@@ -744,7 +788,13 @@ func c16GenHistory(r *xrand.Rand, idx int, tier string) *fw.Case {
 	return &fw.Case{Meta: map[string]string{"kind": kind, "clients": strings.Join(lines, "\n")}, Ints: map[string]int{"procs": []int{2, 4, 16}[r.Intn(3)], "yield": r.Intn(1 << 30)}, Docs: []run.Doc{{}}}
 }
 
+var c16Blocked atomic.Bool
+
 func c16EvalHistory(t *fw.T, c *fw.Case) {
+	if c16Blocked.Load() {
+		t.Count("histories_skipped_after_blocked_call")
+		return
+	}
 	kind := c.Meta["kind"]
 	m := newOmap(kind)
 	var plans [][]hop
@@ -784,7 +834,16 @@ func c16EvalHistory(t *fw.T, c *fw.Case) {
 		}(ci)
 	}
 	close(start)
-	wg.Wait()
+	done := make(chan struct{})
+	go func() { wg.Wait(); close(done) }()
+	select {
+	case <-done:
+	case <-time.After(60 * time.Second):
+		c16Blocked.Store(true) // one witness is enough: every later history with the same call would wait again
+		// a handful of microsecond operations did not finish in minutes: a call is blocked on the collection's lock
+		t.Violation("collection-call-blocked:"+kind, "a call on "+kind+" never returned (a lock is not released on some path); clients:\n"+c.Meta["clients"])
+		return
+	}
 	var ops []porcupine.Operation
 	for _, rr := range results {
 		ops = append(ops, rr...)
@@ -949,4 +1008,67 @@ func c16Post(d *fw.Driver) {
 		}
 	}
 	d.Distinct("firstuse")
+}
+
+
+// c16EvalRulesBuilder: concurrent writers of one rules builder (Set of distinct keys, Append); when they are done every
+// key must lead to its own rule, the number of rules must be right and every rule must be there exactly once.
+func c16EvalRulesBuilder(t *fw.T, c *fw.Case) {
+	prev := runtime.GOMAXPROCS(c.Ints["procs"])
+	defer runtime.GOMAXPROCS(prev)
+	b := catalog.VerifNewRulesBuilder(4)
+	writers, per := 8, 24
+	var wg sync.WaitGroup
+	start := make(chan struct{})
+	for w := 0; w < writers; w++ {
+		wg.Add(1)
+		go func(w int) {
+			defer wg.Done()
+			<-start
+			for i := 0; i < per; i++ {
+				k := fmt.Sprintf("w%d_k%d", w, i)
+				if i%6 == 5 {
+					b.Append(catalog.Rule{Key: "appended", ScalarValue: k})
+				} else {
+					b.Set(k, catalog.Rule{ScalarValue: "value-of-" + k})
+				}
+				if i%4 == 0 {
+					runtime.Gosched()
+				}
+			}
+		}(w)
+	}
+	close(start)
+	wg.Wait()
+	t.Count("rules_builder_rounds")
+	rr := b.Rules()
+	want := writers * per
+	if rr.Len() != want {
+		t.Violation("rules-builder:len", fmt.Sprintf("%d rules were written, Len() = %d", want, rr.Len()))
+		return
+	}
+	seen := map[string]int{}
+	_ = rr.Each(func(k string, v catalog.Rule) error { seen[v.Key+"|"+v.ScalarValue]++; return nil })
+	for w := 0; w < writers; w++ {
+		for i := 0; i < per; i++ {
+			k := fmt.Sprintf("w%d_k%d", w, i)
+			if i%6 == 5 {
+				if seen["appended|"+k] != 1 {
+					t.Violation("rules-builder:lost-or-repeated", fmt.Sprintf("the appended rule %s is there %d times", k, seen["appended|"+k]))
+					return
+				}
+				continue
+			}
+			v, ok := rr.Get(k)
+			if !ok || v.Key != k || v.ScalarValue != "value-of-"+k {
+				t.Violation("rules-builder:get-returns-another-rule", fmt.Sprintf("Get(%q) = (%q, %q, found=%v) after concurrent writers", k, v.Key, v.ScalarValue, ok))
+				return
+			}
+			if seen[k+"|value-of-"+k] != 1 {
+				t.Violation("rules-builder:lost-or-repeated", fmt.Sprintf("the rule %s is there %d times", k, seen[k+"|value-of-"+k]))
+				return
+			}
+		}
+	}
+	t.Distinct("rules-builder")
 }
